@@ -30,6 +30,7 @@ import Driver.AchainChk
 import Vata.Proofs.LtsSim
 import Vata.Properties.C01
 import Vata.TrimCoded
+import Vata.UnionIsectMaps
 /-!
 # vdriver – the model side of the correspondence check
 
@@ -256,6 +257,66 @@ def checkIsect (args res : List String) (bu : Bool) : Except String (Findings ×
     f := f ++ [s!"violation CreateProductStringToStateMap names {got} expected {expN}"]
   let e ← emptyE P
   pure (f, s!"empty={bchar e}")
+
+/-- `mapsx`: `Union` with ONE map object for both translators, `Intersection` / `IntersectionBU` with a PRE-FILLED product map
+(outside the documented contracts: findings here are broken correspondences with `Vata/UnionIsectMaps.lean`, never property
+violations).  The comparisons are the order-independent characterisations proved for the models: `C02_union_same_map_glues`
+(the result is the image of `A.rules ++ B.rules` under the ONE reported map, which extends the given one and stays injective),
+`C02_isect_prefilled_is_explored_product` (the result is the product on the explored pairs under the reported map),
+`C02_isect_prefilled_lang` (exact under `pmapOkB` and `prefillOkB`), `C02_union_same_map_lang` (exact for disjoint states). -/
+def checkMapsX (args res : List String) : Except String (Findings × String) := do
+  let mode ← getE args[0]? "missing mode"
+  let A ← getE (args[1]? >>= parseTA?) "bad A"
+  let B ← getE (args[2]? >>= parseTA?) "bad B"
+  let A' ← taE res "A"
+  let B' ← taE res "B"
+  let mut f : Findings := sameOperand "A" A A' ++ sameOperand "B" B B'
+  if mode == "alias" then
+    let m0 ← getE (args[3]? >>= parseMap?) "bad m0"
+    let U ← taE res "U"
+    let m ← getE ((kv res "m") >>= parseMap?) "bad m"
+    let inj0 := (m0.map (·.2)).eraseDups.length == m0.length
+    if !inj0 then throw "precondition: pre-filled map not injective"
+    if !(m0.all (fun e => m.contains e)) then f := f ++ ["mismatch alias-union changed an entry of the given map"]
+    if (m.map (·.2)).eraseDups.length != m.length then f := f ++ ["mismatch alias-union map not injective"]
+    if !((A.states ++ B.states).all (fun q => (m.lookup q).isSome)) then f := f ++ ["mismatch alias-union map not total"]
+    if !taEq U (reindex (applyMap m) (unionDisjoint A B)) then f := f ++ ["mismatch alias-union is not the image under the ONE reported map"]
+    -- the model run (list order): same number of fresh entries, same image up to the numbering
+    let (Um, mm) := unionSameMap A B m0
+    if mm.length != m.length || Um.states.length != U.states.length || (dedupRules Um.rules).length != (dedupRules U.rules).length then
+      f := f ++ [s!"mismatch alias-union sizes differ from the model: model={showTA Um}"]
+    let disj := A.states.all (fun q => !B.states.contains q)
+    if disj then
+      if !(← getE (isUnionM U A B FUEL) "fuel(union)") then f := f ++ ["violation union-language (one map object, state-disjoint operands)"]
+    pure (f, s!"mapsx=alias disjoint={bchar disj} prefilled={m0.length}")
+  else
+    let m0 ← getE (args[3]? >>= parsePairMap?) "bad pm0"
+    let P ← taE res "P"
+    let m ← getE ((kv res "m") >>= parsePairMap?) "bad m"
+    let ok0 := pmapOkB m0
+    let pf := prefillOkB A B m0
+    if !(m0.all (fun e => m.contains e)) then f := f ++ ["mismatch prefilled-isect changed an entry of the given map"]
+    if mode == "td" then
+      if ok0 then
+        let M := prodOn A B (exploredPairs A B m0 m) (lookupF m)
+        if !taEq P M then f := f ++ [s!"mismatch prefilled-isect is not the product on the explored pairs: model={showTA M}"]
+      match isectTDFrom A B m0 (isectFromFuel A B) with
+      | some (Pm, mm) =>
+        if mm.length != m.length || Pm.states.length != P.states.length then f := f ++ [s!"mismatch prefilled-isect sizes differ from the model: model={showTA Pm}"]
+        if !(← equivE Pm P) then
+          -- with colliding numbers the language depends on the order in which the hash containers hand out `size()`
+          if ok0 then f := f ++ ["mismatch prefilled-isect language differs from the model"]
+      | none => throw "internal: isectTDFrom out of fuel above its proved bound"
+      if ok0 && pf then
+        if !(← getE (isIsectM P A B FUEL) "fuel(isect)") then f := f ++ ["mismatch prefilled-isect language (inside pmapOkB ∧ prefillOkB: C02_isect_prefilled_lang)"]
+    else
+      match isectBUFrom A B m0 (4 * (A.rules.length + 1) * (B.rules.length + 1) + m0.length + 8) with
+      | some (Pm, _) =>
+        if ok0 && !(← equivE Pm P) then f := f ++ [s!"mismatch prefilled-isectbu language differs from the model: model={showTA Pm}"]
+      | none => f := f ++ ["mismatch prefilled-isectbu model out of fuel"]
+      if ok0 && m0.isEmpty then
+        if !(← getE (isIsectM P A B FUEL) "fuel(isect)") then f := f ++ ["violation isectbu-language"]
+    pure (f, s!"mapsx={mode} mapok={bchar ok0} prefillok={bchar pf} prefilled={m0.length}")
 
 def checkTrim (args res : List String) : Except String (Findings × String) := do
   let A ← getE (args[0]? >>= parseTA?) "bad A"
@@ -537,6 +598,7 @@ def dispatch (kind : String) (args res : List String) : Except String (Findings 
   | "uniondisj" => checkUnionDisj args res
   | "isect" => checkIsect args res false
   | "isectbu" => checkIsect args res true
+  | "mapsx" => checkMapsX args res
   | "trim" => checkTrim args res
   | "cand" => checkCand args res
   | "reduce" => checkReduce args res
